@@ -327,3 +327,24 @@ Proof.
   replace (p =? 4) with false by lia. replace (p =? 5) with false by lia.
   destruct (Z.eqb_spec 0 p) as [<-|N0]; reflexivity.
 Qed.
+
+(** * 10. the rate control's own resolution of QMax *)
+(** Full statement (documentation: QMax range 0-100, only negative values mean 100): every
+    explicit in-range value reaches the rate control unchanged. *)
+Definition ratectl_honours_explicit_qmax : Prop := forall v, 0 <= v <= 100 -> ratectl_qmax v = v.
+
+(** Proved part: every positive value (whatever form the source rule has: none, [< 0] or [<= 0]). *)
+Theorem ratectl_qmax_positive_honoured : forall v, 0 < v <= 100 -> ratectl_qmax v = v.
+Proof.
+  intros v H. unfold ratectl_qmax.
+  remember F.ratectl_qmax_rule as r eqn:E. vm_compute in E. subst r. cbn.
+  repeat match goal with |- context [if ?b then _ else _] => destruct b eqn:? end; lia.
+Qed.
+
+(** v = 0: honoured, or (pinned tree: `if qmax <= 0 { qmax = 100 }`) replaced by 100. *)
+Theorem ratectl_qmax_zero : ratectl_qmax 0 = 0 \/ (ratectl_qmax 0 = 100 /\ ~ ratectl_honours_explicit_qmax).
+Proof.
+  first [ left; vm_compute; reflexivity
+        | right; split; [vm_compute; reflexivity|];
+          intros H; specialize (H 0 ltac:(lia)); vm_compute in H; discriminate ].
+Qed.
